@@ -626,6 +626,20 @@ func (env *SpecEnv) evalCall(x *Expr) Value {
 			return Value{term: fmt.Sprint(a.typ.Underlying().(*types.Array).Len()), typ: mathInt}
 		}
 		env.errorf("len of %s", a.typ)
+	case "chancap":
+		// chancap(ch): the capacity the channel was made with
+		argc(1)
+		a := env.eval(x.Args[0])
+		e.v.declFun("chancap", "(Int) Int")
+		return Value{term: "(chancap " + a.term + ")", typ: mathInt}
+	case "stringOf":
+		// stringOf(b): the string conversion of the byte slice b (in the current state)
+		argc(1)
+		a := env.eval(x.Args[0])
+		if _, ok := a.typ.Underlying().(*types.Slice); !ok {
+			env.errorf("stringOf needs a byte slice")
+		}
+		return Value{term: e.bytesToString(env.cur, a), typ: types.Typ[types.String]}
 	case "backing":
 		// backing(s): identity of the slice's backing array
 		argc(1)
